@@ -925,7 +925,12 @@ class SVG:
             updates.append((idx, el, shape))
 
         for idx, el, shape in updates:
-            self._set_element(idx, el, (shape,))
+            if shape.d:
+                self._set_element(idx, el, (shape,))
+            else:
+                # bounding box overlaps the viewbox but the shape itself lies
+                # entirely outside: nothing is left, drop the element
+                self._set_element(idx, el, ())
 
         # Update the etree
         self._update_etree()
